@@ -1,4 +1,4 @@
 SPECIFICATION Spec
-CONSTANTS Keys = {1, 2, 3} P = 1 MaxTs = 3 MaxRounds = 2 CleanupOnUndetermined = FALSE
+CONSTANTS Keys = {1, 2, 3} P = 1 MaxTs = 3 MaxRounds = 2 CleanupOnUndetermined = FALSE NonLockingCheck = FALSE
 INVARIANTS OneOutcome AckHolds FailHolds ReadStable SnapshotAtomic CommitTsOK
 CHECK_DEADLOCK FALSE
